@@ -404,6 +404,15 @@ fn parse_hops(h: &Value) -> Vec<HOp> {
         .collect()
 }
 
+/// variance(i) = n (N - n) / N of Histogram.tla evaluated in u128 (exact below counts of 2^63);
+/// cross-checked against every variance the specification exports, used alone for large counts
+pub fn hexact_variance(n: u128, total: u128) -> f64 {
+    if total == 0 {
+        return f64::NAN;
+    }
+    ((n * (total - n)) as f64) / (total as f64)
+}
+
 fn view_expected(v: &Value) -> Option<f64> {
     // Some(f64) for exact rationals / infinities, None for NaN
     match v {
@@ -654,8 +663,20 @@ fn do_hist<H: HistT>(line: &Value, want: &HWant, rep: &mut Report) {
                 ("widths", h.widths(), &spec["widths"], 0.0),
                 ("centers", h.centers(), &spec["centers"], 0.0),
                 ("normalized_bins", h.normalized(), &spec["norm"], 0.0),
-                ("variances", h.variances(), &spec["vars"], 4.0 * 2.0 * U * (total as f64) / 4.0),
+                ("variances", h.variances(), &spec["vars"], 4.0 * U * (total as f64)),
             ];
+            // oracle cross-check of the large-count evaluator against the specification's variances
+            for i in 0..H::LEN {
+                let mine = hexact_variance(sbins[i] as u128, total as u128);
+                rep.crosschecks += 1;
+                let agree = match view_expected(&spec["vars"][i]) {
+                    None => mine.is_nan(),
+                    Some(e) => (mine - e).abs() <= 4.0 * U * e.abs(),
+                };
+                if !agree {
+                    rep.tool_errors.push(format!("hexact_variance disagrees with Histogram.tla on bins {:?}: {} vs {}", sbins, mine, spec["vars"][i]));
+                }
+            }
             for (name, got, exp, tol) in views.iter() {
                 if !exact_views && *name != "variances" {
                     continue; // edge values one ulp off the lattice: widths / centres are not exported exactly
@@ -675,7 +696,7 @@ fn do_hist<H: HistT>(line: &Value, want: &HWant, rep: &mut Report) {
             let vs = h.variances();
             for i in 0..H::LEN {
                 let v = h.variance(i);
-                let tol = 4.0 * 2.0 * U * (total as f64) / 4.0;
+                let tol = 4.0 * U * (total as f64);
                 if !(v.is_nan() && vs[i].is_nan()) && !((v - vs[i]).abs() <= tol) {
                     viol(rep, "C13", H::NAME, line, "variance", format!("variance({i}) = {:e} disagrees with variances()[{i}] = {:e}", v, vs[i]));
                 }
